@@ -167,7 +167,10 @@ Proof.
       * destruct (mkind_bad m); [apply returns_err|apply IH].
 Qed.
 Lemma expand_apk_returns ms g : Returns (expand_apk ms g).
-Proof. unfold expand_apk. apply returns_bind; [apply expand_loop_returns|]. intros. apply expand_select_returns. Qed.
+Proof.
+  unfold expand_apk. apply returns_bind; [apply expand_loop_returns|]. intros n _.
+  apply returns_bind; [apply expand_select_returns|]. intros sg _. destruct (sections_ok ms n); [apply returns_ok|apply returns_err].
+Qed.
 (* the loop never collects more members than the stream limit: len(gzipStreams) <= 3 *)
 Lemma expand_loop_count ms g : forall first sid maxs count n,
   Z.of_nat count = (sid + 1)%Z -> (sid + 1 < maxs)%Z -> (maxs <= Z.of_nat (snd expand_max_streams))%Z ->
